@@ -3,10 +3,14 @@
 //!   cache_history  cfg opts file calls      -> one answer per call (o<digest> | e<kind code> | p)
 //!   schedule       ccfg file programs sched -> one field per thread (answers; "!" = call still open)
 //!   stress         file programs rounds     -> one field per thread (answers of the last round), real SyncCache
+//!   tschedule / tstress: the same with typed programs (one row `ty r ty r …` per thread; in `schedule` and
+//!                  `stress` a row is a list of references, each loaded as Node<0>)
 //!
 //! The test documents contain objects of the harness-defined types Node<0>, Node<1>, Node<2>
 //! (`<< /V int /F flags /E0 mask /E1 mask /D [ty ref ty ref …] >>`, modelled by coq/theories/Cache/Node.v)
-//! besides library types (pages, fonts, streams, images).
+//! besides library types (pages, fonts, streams, images).  /F: bit 0 = nested errors are swallowed; bits 1..3 =
+//! the types that are *lazy* (Node<TAG> with bit 1+TAG set does not follow /D — as Vec<Ref<T>> against
+//! Vec<MaybeRef<T>>); bits 4.. = the kind of the error raised by the /E0 and /E1 masks (0 = Other).
 use crate::util::*;
 use crate::R;
 use pdf::any::AnySync;
@@ -27,11 +31,33 @@ const DMOD: u128 = 2305843009213693951; // 2^61 - 1
 fn dstep(h: u128, x: u128) -> u128 { let t = (h * 1000003 + x + 1) % DMOD; (t * t + t + 7) % DMOD }
 fn digest_bytes(b: &[u8]) -> u128 { b.iter().fold(7u128, |h, &x| dstep(h, x as u128)) }
 
+/// error kinds as numbers: missing object (2 NullRef, 3 FreeObject, 6 UnspecifiedXRefEntry), wrong type
+/// (10 UnexpectedPrimitive), parse errors (5 EOF, 11 UnexpectedLexeme / UnknownType / Parse), 8 MaxDepth,
+/// 1 everything else (Other: "Recursive reference", the Node types' own errors)
 fn kind_code(e: &PdfError) -> u32 {
-    match ekind(e).as_str() {
-        "Other" => 1, "NullRef" => 2, "FreeObject" => 3, "MissingEntry" => 4, "EOF" => 5,
-        "UnspecifiedXRefEntry" => 6, "PageOutOfBounds" => 7, "MaxDepth" => 8, "InvalidPassword" => 9,
+    match e {
+        PdfError::Try { source, .. } => kind_code(source),
+        PdfError::Shared { source } => kind_code(source),
+        PdfError::FromPrimitive { source, .. } => kind_code(source),
+        PdfError::NullRef { .. } => 2, PdfError::FreeObject { .. } => 3, PdfError::MissingEntry { .. } => 4,
+        PdfError::EOF => 5, PdfError::UnspecifiedXRefEntry { .. } => 6, PdfError::PageOutOfBounds { .. } => 7,
+        PdfError::MaxDepth => 8, PdfError::InvalidPassword => 9, PdfError::UnexpectedPrimitive { .. } => 10,
+        PdfError::UnexpectedLexeme { .. } | PdfError::UnknownType { .. } | PdfError::Parse { .. } => 11,
         _ => 1,
+    }
+}
+/// the error a Node type raises for its /E0 and /E1 masks, of the kind given in /F
+fn node_error(kind: i64, what: &str) -> PdfError {
+    match kind {
+        2 => PdfError::NullRef { obj_nr: 0 },
+        3 => PdfError::FreeObject { obj_nr: 0 },
+        4 => PdfError::MissingEntry { typ: "Node", field: what.into() },
+        5 => PdfError::EOF,
+        6 => PdfError::UnspecifiedXRefEntry { id: 0 },
+        8 => PdfError::MaxDepth,
+        10 => PdfError::UnexpectedPrimitive { expected: "Dictionary", found: "Node" },
+        11 => PdfError::UnexpectedLexeme { pos: 0, lexeme: what.into(), expected: "node" },
+        _ => PdfError::Other { msg: format!("node: {}", what) },
     }
 }
 fn show(r: Result<u128, u32>) -> String { match r { Ok(d) => format!("o{}", d), Err(k) => format!("e{}", k) } }
@@ -58,11 +84,12 @@ impl<const TAG: u8> Object for Node<TAG> {
         let d: Dictionary = p.resolve(resolve)?.into_dictionary()?;
         let int = |k: &str| -> i64 { d.get(k).and_then(|p| p.as_integer().ok()).unwrap_or(0) as i64 };
         let (v, flags, e0, e1) = (int("V"), int("F"), int("E0"), int("E1"));
+        let (lazy, kind) = ((flags >> (1 + TAG)) & 1 == 1 && TAG < 3, flags >> 4);
         if (e0 >> TAG) & 1 == 1 {
-            return Err(PdfError::Other { msg: "node: E0".into() });
+            return Err(node_error(kind, "E0"));
         }
         let mut h = dstep(dstep(7, TAG as u128), v as u128);
-        if let Some(Primitive::Array(a)) = d.get("D") {
+        if let (false, Some(Primitive::Array(a))) = (lazy, d.get("D")) {
             for pair in a.chunks(2) {
                 if pair.len() < 2 { break; }
                 let ty = pair[0].as_integer().unwrap_or(0);
@@ -76,7 +103,7 @@ impl<const TAG: u8> Object for Node<TAG> {
             }
         }
         if (e1 >> TAG) & 1 == 1 {
-            return Err(PdfError::Other { msg: "node: E1".into() });
+            return Err(node_error(kind, "E1"));
         }
         Ok(Node { digest: h })
     }
@@ -268,16 +295,21 @@ impl Cache<OVal> for TurnRef {
     fn clear(&self) { self.map.lock().unwrap().clear(); }
 }
 
-fn programs(b: &[u8]) -> Vec<Vec<u64>> {
+/// one row per thread: `r r …` (typed = false: every call loads Node<0>) or `ty r ty r …`
+fn programs(b: &[u8], typed: bool) -> Vec<Vec<(i32, u64)>> {
     String::from_utf8_lossy(b).split('\n')
-        .map(|row| row.split(' ').filter(|s| !s.is_empty()).map(|s| s.parse::<u64>().unwrap_or(0)).collect()).collect()
+        .map(|row| {
+            let n: Vec<u64> = row.split(' ').filter(|s| !s.is_empty()).map(|s| s.parse::<u64>().unwrap_or(0)).collect();
+            if typed { n.chunks(2).filter(|c| c.len() == 2).map(|c| (c[0] as i32, c[1])).collect() }
+            else { n.into_iter().map(|r| (0, r)).collect() }
+        }).collect()
 }
 
-fn schedule(f: &[Vec<u8>]) -> R {
+fn schedule(f: &[Vec<u8>], typed: bool) -> R {
     let cf = fld(f, 0);
     let shared = cf.first() == Some(&b'1');
     let cache_on = cf.get(2) == Some(&b'1');
-    let progs = programs(fld(f, 2));
+    let progs = programs(fld(f, 2), typed);
     let sched: Vec<usize> = String::from_utf8_lossy(fld(f, 3)).split(' ').filter(|s| !s.is_empty())
         .map(|s| s.parse::<usize>().unwrap_or(0)).collect();
     let tc = TurnRef(TurnCache::new());
@@ -290,7 +322,7 @@ fn schedule(f: &[Vec<u8>]) -> R {
     }
 }
 
-fn run_threads<OC>(file: &pdf::file::File<Vec<u8>, OC, NoCache, pdf::file::NoLog>, shared: bool, progs: &[Vec<u64>], sched: &[usize],
+fn run_threads<OC>(file: &pdf::file::File<Vec<u8>, OC, NoCache, pdf::file::NoLog>, shared: bool, progs: &[Vec<(i32, u64)>], sched: &[usize],
                    tc: Option<&TurnRef>) -> R
 where OC: Cache<PResult<AnySync, Arc<PdfError>>> + Sync {
     let n = progs.len();
@@ -308,11 +340,11 @@ where OC: Cache<PResult<AnySync, Arc<PdfError>>> + Sync {
             scope.spawn(move || {
                 ME.with(|m| m.set(Some(t)));
                 let own = file.resolver();
-                for &id in &progs[t] {
+                for &(ty, id) in &progs[t] {
                     if s2.st.lock().unwrap().abort { break; }
                     let r = PlainRef { id, gen: 0 };
                     let res = catch_unwind(AssertUnwindSafe(|| {
-                        if shared { get_node(0, r, shared_resolver) } else { get_node(0, r, &own) }
+                        if shared { get_node(ty, r, shared_resolver) } else { get_node(ty, r, &own) }
                     }));
                     let a = match res { Ok(Ok(d)) => format!("o{}", d), Ok(Err(e)) => format!("e{}", kind_code(&e)), Err(_) => "p".into() };
                     answers[t].lock().unwrap().push(a);
@@ -358,8 +390,8 @@ where OC: Cache<PResult<AnySync, Arc<PdfError>>> + Sync {
 }
 
 // real threads, real SyncCache, no scheduler
-fn stress(f: &[Vec<u8>]) -> R {
-    let progs = programs(fld(f, 1));
+fn stress(f: &[Vec<u8>], typed: bool) -> R {
+    let progs = programs(fld(f, 1), typed);
     let rounds = dec(fld(f, 2)).max(1) as usize;
     let mut last = vec![];
     for _ in 0..rounds {
@@ -371,8 +403,8 @@ fn stress(f: &[Vec<u8>]) -> R {
                 let (resolver, barrier) = (&resolver, &barrier);
                 scope.spawn(move || {
                     barrier.wait();
-                    p.iter().map(|&id| {
-                        match catch_unwind(AssertUnwindSafe(|| get_node(0, PlainRef { id, gen: 0 }, resolver))) {
+                    p.iter().map(|&(ty, id)| {
+                        match catch_unwind(AssertUnwindSafe(|| get_node(ty, PlainRef { id, gen: 0 }, resolver))) {
                             Ok(Ok(d)) => format!("o{}", d), Ok(Err(e)) => format!("e{}", kind_code(&e)), Err(_) => "p".into() }
                     }).collect::<Vec<String>>()
                 })
@@ -402,8 +434,8 @@ pub fn dispatch(mode: &str, f: &[Vec<u8>]) -> Option<R> {
                 (false, false) => history(NoCache, NoCache, f),
             }
         }
-        "schedule" => { if f.len() < 4 { return Some(Err("BadFields".into())); } schedule(f) }
-        "stress" => { if f.len() < 3 { return Some(Err("BadFields".into())); } stress(f) }
+        "schedule" | "tschedule" => { if f.len() < 4 { return Some(Err("BadFields".into())); } schedule(f, mode == "tschedule") }
+        "stress" | "tstress" => { if f.len() < 3 { return Some(Err("BadFields".into())); } stress(f, mode == "tstress") }
         _ => return None,
     })
 }
